@@ -1500,6 +1500,10 @@ class ClientRequest(ClientRequestBase):
                 # Force headers to be sent before waiting for 100-continue
                 writer.send_headers()
                 await writer.drain()
+                # The peer's answer to the request head is awaited now: it
+                # is a read like any other ('100 Continue' drops the timer
+                # again before the body is sent).
+                protocol.start_timeout()
                 await self._continue
 
             await self._body.write_with_length(writer, content_length)
